@@ -206,11 +206,17 @@ def run(ctx):
 
     with ThreadPoolExecutor(max_workers=6) as ex:
         sres = list(ex.map(single, singles))
+    nalone = 0
     for fpath, clean, dirty in sres:
         nsing += 1
-        if clean is None or dirty is None:
+        if clean is None:
+            # the file cannot be built alone even on an empty build directory (an #aa:exec / #aa:stack directive names a profile
+            # that single-file mode does not copy): nothing to compare, and not what this property is about
+            nalone += 1
+            continue
+        if dirty is None:
             nsbad += 1
-            ctx.violation('prebuild --file %s failed' % fpath, {'file': fpath})
+            ctx.violation('prebuild --file %s succeeds on an empty build directory and fails over an earlier build' % fpath, {'file': fpath})
             continue
         base = os.path.basename(fpath)
         extra = sorted(k for k in dirty if k not in clean)
@@ -218,7 +224,7 @@ def run(ctx):
             nsbad += 1
             ctx.violation('prebuild --file %s: the policy directory holds %s on an empty build directory and %d more entries (%s) over an earlier build' % (
                 fpath, sorted(clean)[:3], len(extra), extra[:4]), {'file': fpath, 'clean': sorted(clean)[:10], 'leaked_over_earlier_build': extra[:40]})
-    ctx.cov['search']['single_file_mode'] = {'files': nsing, 'failing': nsbad}
+    ctx.cov['search']['single_file_mode'] = {'files': nsing, 'failing': nsbad, 'not_buildable_alone': nalone}
     ctx.cov['evaluations'] += nent
     ctx.count_distinct([c.name() for c in cfgs])
     ctx.cov['search']['real_prepare'] = {'configs': len(cfgs), 'entries_compared': nent}
